@@ -81,7 +81,10 @@ CTLock(k) ==
   \* reproducing the reported chain: the chain does not change
   /\ UNCHANGED <<par, wt, delivered, lastops, chain, idx>>
 
-CTNext == (\E B \in SUBSET Hashes : CTDeliver(B)) \/ (\E k \in 1..N : CTLock(k))
+\* locking a prefix that is already locked is not an event: nothing changes, the tracker keeps working
+CTRelock(k) == k \in 1..nlocked /\ UNCHANGED <<par, wt, delivered, lastops, chain, idx, nlocked>>
+
+CTNext == (\E B \in SUBSET Hashes : CTDeliver(B)) \/ (\E k \in 1..N : CTLock(k)) \/ (\E k \in 1..N : CTRelock(k))
 CTSpec == CTInit /\ [][CTNext]_ctvars
 
 \* what the statement says about every reachable state
